@@ -29,6 +29,7 @@ import GraphiqModel.Proofs.HilbertDimOverlap
 import GraphiqModel.Proofs.HilbertDimReduced
 import GraphiqModel.Proofs.HilbertDimBorn
 import GraphiqModel.Proofs.HilbertDimMeasXY
+import GraphiqModel.Proofs.HilbertDimCY
 namespace Graphiq.C07
 open Graphiq Graphiq.PRow Graphiq.Tab
 
@@ -1788,5 +1789,30 @@ theorem tensor_list_spec (t : Tab) (ts : List Tab) :
       show t.n + a.n + _ = _
       simp only [List.map_cons, List.sum_cons]
       omega
+
+/-- **`control_y_gate`** (transformation.py; `phase_gate; z_gate; cnot_gate; phase_gate` on the target): it is the history of
+    these four base operations, keeps the tableau valid, and on density matrices it is conjugation by the controlled-Y unitary
+    `get_two_qubit_controlled_gate(n, c, t, sigmay())`, which is the product of the four gate unitaries -/
+theorem control_y_gate_spec (t : Tab) (c tg : Nat) (hc : c < t.n) (ht : tg < t.n) (hct : c ≠ tg) (hv : t.Valid)
+    (hr : t.StabReal) :
+    t.runOps [.s tg, .z tg, .cnot c tg, .s tg] = .ok (t.cyGate c tg) ∧
+    (t.cyGate c tg).Valid ∧ (t.cyGate c tg).StabReal ∧
+    gateMat t.n (.P tg) * gateMat t.n (.CNOT c tg) * gateMat t.n (.Z tg) * gateMat t.n (.P tg) = ctrlQ t.n c tg sigmaY ∧
+    rho t.n (STab.ofTab (t.cyGate c tg))
+      = ctrlQ t.n c tg sigmaY * rho t.n (STab.ofTab t) * (ctrlQ t.n c tg sigmaY)ᴴ := by
+  have hrun : t.runOps [.s tg, .z tg, .cnot c tg, .s tg] = .ok (t.cyGate c tg) := by
+    have h1 : tg < (t.sGate tg).n := ht
+    have h2 : c < ((t.sGate tg).zGate tg).n ∧ tg < ((t.sGate tg).zGate tg).n := ⟨hc, ht⟩
+    have h3 : tg < (((t.sGate tg).zGate tg).cnotGate c tg).n := ht
+    simp only [Tab.runOps, Tab.applyOp, ht, h1, h2, h3, if_true, and_self, Tab.cyGate]
+  have hst := history_tracks_state [.s tg, .z tg, .cnot c tg, .s tg] (by
+    intro op hop
+    simp only [List.mem_cons, List.mem_nil_iff, or_false] at hop
+    rcases hop with rfl | rfl | rfl | rfl
+    · trivial
+    · trivial
+    · exact hct
+    · trivial) t _ hv hr hrun
+  exact ⟨hrun, hst.1, hst.2.1, control_y_unitary t.n c tg hc ht hct, rho_cyGate t c tg hc ht hct⟩
 
 end Graphiq.C07
